@@ -1,5 +1,6 @@
 import ZmqVerif.Model.Sockets
 import ZmqVerif.Spec.PubSub
+import ZmqVerif.Lemmas.WorldPubReader
 /-!
 # C11 — PUB/XPUB deliver a message to a subscriber iff a subscription is a prefix
 
@@ -96,5 +97,27 @@ theorem C11_history (hist : List Msg) :
 example : copies (onMsg (onMsg (onMsg [] [[1, 65]]) [[1, 65]]) [[0, 65]]) [65, 66] = 1 := by decide
 example : copies (onMsg (onMsg [] [[1, 65, 66]]) [[0, 65, 66]]) [65, 66] = 0 := by decide
 example : copies (onMsg [] [[1, 65, 66, 67]]) [65, 66] = 0 := by decide
+
+/-! ### socket level: PUB's reader task against the subscriber's byte stream -/
+
+open Zmq.W in
+/-- **"Subscriptions are counted per connection in the order that peer's subscribe/unsubscribe messages are
+processed" — at byte level.**  PUB reads each subscriber in a task of its own.  Run until it is `Pending` or
+ends, the task has consumed a PREFIX `c` of the items the rest of that connection's byte stream decodes to (C02's
+`run`; the reader carries on exactly behind it), and the subscription list kept for that subscriber is the old one
+with `onMsg` folded over exactly the MESSAGES in `c`, in order — commands and greetings in between change nothing,
+malformed subscription messages change nothing (`C11_garbage_noop`); no other subscriber's list and no other pipe's
+waiting bytes are touched; if the task ends, nothing complete was left unprocessed. -/
+theorem C11_world_pub_reader (fuel : Nat) (ps : Pipes) (s : Socket) (k : Ident) (rd : Rd)
+    (subs : List Bytes) (hsub : ilookup s.subsOf k = some subs)
+    (ps' : Pipes) (s' : Socket) (r : Option Rd) (h : readerTask fuel ps s k rd = (ps', s', r)) :
+    ∃ c : List Item,
+      (∀ j, j ≠ rd.pipe → inbufOf ps' j = inbufOf ps j) ∧
+      (∀ j, j ≠ k → ilookup s'.subsOf j = ilookup s.subsOf j) ∧
+      (match r with
+       | some rd' => rd'.pipe = rd.pipe ∧ rd.rem ps = (rd'.rem ps').pre c ∧
+           ilookup s'.subsOf k = some ((msgsOf c).foldl onMsg subs)
+       | none => rd.items ps = c) :=
+  readerTask_spec fuel ps s k rd subs hsub ps' s' r h
 
 end Zmq.C11
